@@ -14,3 +14,21 @@ Print Assumptions C11_auto_prefers_unless_strictly_fewer_escapes.
 Theorem C11_rule_observable_on_output : forall q q' s, QuoteMore.needs q' (Quote.rewrite q s) = QuoteMore.needs q' s.
 Proof. exact QuoteMore.needs_rewrite. Qed.
 Print Assumptions C11_rule_observable_on_output.
+From SV Require CallForm.
+Theorem C11_call_form_obeys_the_rule : forall m f k o, CallForm.wf_call f k = true -> CallForm.form_ok m (CallForm.call_form m f k o) k o = true.
+Proof. exact CallForm.call_form_obeys_rule. Qed.
+Print Assumptions C11_call_form_obeys_the_rule.
+Theorem C11_input_keeps_each_call_form : forall f k o, CallForm.call_form CallForm.Input f k o = f.
+Proof. exact CallForm.input_keeps_form. Qed.
+Print Assumptions C11_input_keeps_each_call_form.
+Theorem C11_always_writes_parentheses : forall f k o, CallForm.call_form CallForm.Always f k o = CallForm.FParen.
+Proof. exact CallForm.always_has_parentheses. Qed.
+Print Assumptions C11_always_writes_parentheses.
+Theorem C11_no_sugar_before_index_or_method : forall m f k, CallForm.wf_call f k = true -> m <> CallForm.Input -> CallForm.call_form m f k true = CallForm.FParen.
+Proof. exact CallForm.sugar_only_when_nothing_follows. Qed.
+Print Assumptions C11_no_sugar_before_index_or_method.
+Theorem C11_space_exactly_where_the_option_names :  forall m,
+  (CallForm.space_definition m = true <-> (m = CallForm.SAlways \/ m = CallForm.SDefinitions)) /\
+  (CallForm.space_call m = true <-> (m = CallForm.SAlways \/ m = CallForm.SCalls)).
+Proof. exact CallForm.space_exactly_where_named. Qed.
+Print Assumptions C11_space_exactly_where_the_option_names.
